@@ -245,3 +245,63 @@ def proof_stage(rep, prop):
     ]
     rep.notes["theorems"] = thms
     return True
+
+
+# ---------------------------------------------------------------- change-directed sampling (no verdict)
+FINGERPRINTS = os.path.join(VERIF, "fingerprints.json")
+# which source functions/classes each property's models were written against
+ANCHORS = {
+    "C01": ["builtins", "itertools", "heapq", "_core"], "C02": ["builtins", "heapq", "functools.reduce", "_core"], "C03": ["_core", "builtins", "contextlib.ExitStack"],
+    "C04": ["builtins", "itertools", "heapq", "_core", "functools.reduce", "asynctools.any_iter"], "C05": ["builtins", "itertools", "heapq", "_core"],
+    "C06": ["builtins", "itertools", "heapq", "_core", "functools.reduce"], "C07": ["asynctools", "_core"], "C08": ["asynctools", "_core"],
+    "C09": ["itertools.tee_peer", "itertools._tee_peer_done", "itertools._TeePeer", "itertools.Tee", "itertools.NoLock", "_core.close_all"],
+    "C10": ["_lrucache"], "C11": ["_lrucache"], "C12": ["functools"], "C13": ["contextlib._AsyncGeneratorContextManager", "contextlib.contextmanager"],
+    "C14": ["contextlib.ExitStack"], "C15": ["contextlib.ContextDecorator", "contextlib._AsyncGeneratorContextManager", "contextlib.contextmanager"],
+    "C16": ["itertools._GroupByState", "itertools._Grouper", "itertools.GroupBy"], "C17": ["_core", "builtins", "itertools", "heapq", "functools", "_lrucache", "contextlib", "asynctools"],
+    "C18": ["builtins", "itertools", "heapq", "_core", "functools.reduce"], "C19": ["asynctools.any_iter", "asynctools.await_each", "asynctools.apply", "asynctools.sync"],
+    "C20": ["builtins", "itertools", "heapq", "functools.reduce"],
+}
+
+
+def source_fingerprints():
+    """sha1 of the normalised AST (docstrings removed) of every top-level function / class of the library"""
+    import ast
+    out = {}
+    pkg = os.path.join(REPO, "asyncstdlib")
+    for fn in sorted(os.listdir(pkg)):
+        if not fn.endswith(".py"):
+            continue
+        try:
+            tree = ast.parse(open(os.path.join(pkg, fn)).read())
+        except SyntaxError:
+            out[fn[:-3]] = "syntax-error"
+            continue
+        for node in tree.body:
+            if isinstance(node, (ast.FunctionDef, ast.AsyncFunctionDef, ast.ClassDef)):
+                for sub in ast.walk(node):
+                    if isinstance(sub, (ast.FunctionDef, ast.AsyncFunctionDef, ast.ClassDef, ast.Module)) and sub.body and isinstance(sub.body[0], ast.Expr) \
+                            and isinstance(getattr(sub.body[0], "value", None), ast.Constant) and isinstance(sub.body[0].value.value, str):
+                        sub.body = sub.body[1:] or [ast.Pass()]
+                out["%s.%s" % (fn[:-3], node.name)] = hashlib.sha1(ast.dump(node).encode()).hexdigest()
+    return out
+
+
+def changed_anchors(prop):
+    """anchored source definitions whose AST differs from the recorded fingerprint (recorded when the models were validated)"""
+    if not os.path.exists(FINGERPRINTS):
+        return []
+    old = json.load(open(FINGERPRINTS))
+    new = source_fingerprints()
+    changed = [k for k in set(old) | set(new) if old.get(k) != new.get(k)]
+    anchors = ANCHORS.get(prop, [])
+    return sorted(k for k in changed if any(k == a_ or k.startswith(a_ + ".") or k.split(".")[0] == a_ for a_ in anchors))
+
+
+def scale(rep):
+    """Change-directed sampling: when a definition the property is anchored in differs from the fingerprint recorded with
+    the models, the quick tier explores 5 times as many cases.  This is not a verdict, only where to look harder."""
+    ch = changed_anchors(rep.prop)
+    if ch:
+        rep.notes["escalated_because_changed"] = ch[:20]
+        return 3
+    return 1
